@@ -198,3 +198,75 @@ func rulePayloadDecodeTarget(c *Ctx, rule string) {
 	}
 	c.R.Check(n >= 2, rule, "client", "payload decode sites enumerated", "-", fmt.Sprintf("found %d", n))
 }
+
+// ruleFeatureTable: what HasFeature answers is what the session announced: one feature set per role (allocated inside
+// the loop over the roles), a feature entered only when its announced value is the boolean true, and HasFeature a
+// plain lookup in that role's set. Routing decisions (receive_progress, call canceling, call timeout, disclosure,
+// payload passthru) all go through HasFeature.
+func ruleFeatureTable(c *Ctx, rule string) {
+	f := "wamp.(*Session).setRoles"
+	inRoleLoop := clause("inside the loop over the announced roles", T(`^next:range\(call:wamp\.AsDict\(%details\["roles"\],ok#0\)#0\)#more$`))
+	c.Guard(rule, f, "a feature set is allocated per role", `^val:makemap\(map\[string\]struct\{\}\)$`, 1, inRoleLoop)
+	c.Guard(rule, f, "feature recorded", `^mapupdate:makemap\(map\[string\]struct\{\}\)\[range\(.*\)#k\]=`, 1, clause("announced with the value true", T(`^range\(.*\)#v\.\(bool\),ok#0$`)))
+	c.Has(rule, f, "the role's own feature set is stored under the role", `^mapupdate:makemap\(map\[string\]map\[string\]struct\{\}\)\[range\(call:wamp\.AsDict\(%details\["roles"\],ok#0\)#0\)#k\]=makemap\(map\[string\]struct\{\}\)$`, 1)
+	h := "wamp.(*Session).HasFeature"
+	c.Has(rule, h, "HasFeature looks the role up", `^val:%s\.roles\[%role\],ok$`, 1)
+	c.Has(rule, h, "HasFeature answers membership of the feature in that role's set", `^return:%s\.roles\[%role\],ok#0\[%feature\],ok#1$`, 1)
+}
+
+// ruleEndSessionGoodbye: a session the router ends on its own (protocol violation) is told to stop with a GOODBYE of
+// its own — never with the nil/NoGoodbye or shutdown goodbye, which the handler reads as realm shutdown (and then
+// skips the removal from dealer and broker).
+func ruleEndSessionGoodbye(c *Ctx, rule string) {
+	f := "router.endSession"
+	c.Has(rule, f, "endSession ends the receive side with a fresh GOODBYE", `^call:wamp\.\(\*Session\)\.EndRecv\(%sess, new\(wamp\.Goodbye\)\)$`, 1)
+	c.Fields(rule, f, "that GOODBYE carries the reason", "wamp.Goodbye", nil, map[string]string{"Reason": `^%reason$`}, 1)
+	// every EndRecv in the router names its goodbye: nil only where the reviewed shutdown paths pass the shutdown goodbye
+	for _, s := range c.CallSites(`^wamp\.\(\*Session\)\.EndRecv$`) {
+		caller := ir.ShortName(s.Caller)
+		if !strings.HasPrefix(caller, "router.") {
+			continue
+		}
+		d := ir.InstrDesc(s.In)
+		c.R.Check(!strings.HasSuffix(d, ", nil)"), rule, caller, "EndRecv is given a GOODBYE: "+d, c.pos(s.In),
+			"EndRecv(nil) makes Goodbye() return NoGoodbye, which the session handler treats as realm shutdown: the session is not removed from dealer and broker")
+	}
+}
+
+// ruleTestamentBuckets: a testament is appended to the list of its own scope, and a bucket that was changed (added to
+// or flushed) is written back to the table or deleted from it on every path.
+func ruleTestamentBuckets(c *Ctx, rule string) {
+	ta := rlm + "testamentAdd$1"
+	for _, sc := range []string{"destroyed", "detached"} {
+		c.AllMatch(rule, ta, "a "+sc+"-scope testament extends the "+sc+" list", `^store:&local:testaments\.&`+sc+`=`, `^store:&local:testaments\.&`+sc+`=call:builtin:append\(\^r\.testaments\[\^caller\]\.`+sc+`, `, 1)
+	}
+	c.Reach(rule, ta, "the extended bucket is stored back", ReachSpec{From: `^store:&local:testaments\.&(destroyed|detached)=`, Stop: `^mapupdate:\^r\.testaments\[\^caller\]=`, Target: "EXIT", Want: false})
+	tf := rlm + "testamentFlush$1"
+	c.Reach(rule, tf, "the flushed bucket is stored back or deleted", ReachSpec{From: `^store:&local:testaments\.&(destroyed|detached)=nil$`, Stop: `^mapupdate:\^r\.testaments\[\^caller\]=|^call:builtin:delete\(\^r\.testaments, \^caller\)$`, Target: "EXIT", Want: false})
+}
+
+// ruleRealmWiring: broker and dealer of a realm get the realm's own options in the right positions.
+func ruleRealmWiring(c *Ctx, rule string) {
+	ar := "router.(*router).addRealm"
+	c.Has(rule, ar, "dealer built with (log, StrictURI, AllowDisclose, debug)", `^call:router\.newDealer\(%r\.log, %config\.StrictURI, %config\.AllowDisclose, %r\.debug\)$`, 1)
+	c.Has(rule, ar, "broker built with (log, StrictURI, AllowDisclose, debug, filter factory, history configs)", `^call:router\.newBroker\(%r\.log, %config\.StrictURI, %config\.AllowDisclose, %r\.debug, %config\.PublishFilterFactory, %config\.TopicEventHistoryConfigs\)$`, 1)
+	c.Fields(rule, "router.newDealer", "dealer literal", "router.dealer", nil, map[string]string{"strictURI": `^%strictURI$`, "allowDisclose": `^%allowDisclose$`}, 1)
+	c.Fields(rule, "router.newBroker", "broker literal", "router.broker", nil, map[string]string{"strictURI": `^%strictURI$`, "allowDisclose": `^%allowDisclose$`}, 1)
+}
+
+// ruleLastRecvID: the last received request id is replaced by exactly the id that was accepted as new.
+func ruleLastRecvID(c *Ctx, rule string) {
+	f := "wamp.(*Session).UpdateLastRecvIDLocked"
+	c.Guard(rule, f, "last received id updated", `^store:%s\.&lastRecvID=`, 1, clause("id is new", T(`^call:wamp\.\(\*Session\)\.IsNewRecvID\(%s, %id\)$`)))
+	c.AllMatch(rule, f, "the id stored is the id accepted", `^store:%s\.&lastRecvID=`, `^store:%s\.&lastRecvID=%id$`, 1)
+	c.Guard(rule, f, "reports new", `^return:true$`, 1, clause("id is new", T(`^call:wamp\.\(\*Session\)\.IsNewRecvID\(%s, %id\)$`)))
+}
+
+// ruleRecvHandOver: once a rawsocket peer is closed its receive loop hands the last message over for a bounded time
+// only (nobody may be reading any more) and then ends.
+func ruleRecvHandOver(c *Ctx, rule string) {
+	rh := "transport.(*rawSocketPeer).recvHandler"
+	c.HasNot(rule, rh, "no unconditional hand-over to the router", `^send:%rs\.rd<-`)
+	c.Has(rule, rh, "hand-over while open has the closed signal as alternative", `^select\{send:%rs\.rd<-.*;recv:%rs\.closed\}$`, 1)
+	c.Has(rule, rh, "hand-over after close is bounded by a timer", `^select\{send:%rs\.rd<-.*;recv:call:time\.NewTimer\(1000000000\)\.C\}$`, 1)
+}
